@@ -143,6 +143,9 @@ pub enum POp {
     /// another miner finds a sibling of the tip (same parent, no more work: it stays a side block and
     /// becomes an uncle candidate for the template that is being filled)
     Sibling { seed: u64 },
+    /// another miner extends the tip by `n` blocks that commit nothing, each `ts_delta` ms after its
+    /// parent; the first one proposes scenario tx `propose` (and nothing else), the others are empty
+    Quiet { n: u64, ts_delta: u64, propose: Option<usize>, seed: u64 },
 }
 
 #[derive(Clone, Debug, Serialize, Deserialize)]
@@ -207,6 +210,19 @@ pub fn generate(seed: u64, prop: &str) -> PoolScenario {
     if clean_detach {
         pool.max_tx_pool_size = 180_000_000;
         pool.max_ancestors = 125;
+    }
+    // C12 stage oracle, planted shape "a proposal that expired on the old tip is inside the window of a
+    // SHORTER but heavier branch": one run in five (not combined with the clean-detach runs)
+    let reopen = prop == "C12" && !clean_detach && Rng::new(seed ^ 0xC12_0BE4).chance(1, 4);
+    if reopen {
+        let mut rp = Rng::new(seed ^ 0xC12_0BE5);
+        cfg.genesis_epoch_len = *rp.pick(&[8u64, 10]);
+        cfg.permanent_difficulty = false;
+        cfg.epoch_duration_target = cfg.genesis_epoch_len * 8;
+        cfg.w_close = rp.range(1, 2);
+        cfg.w_far = 6;
+        pool.max_tx_pool_size = 180_000_000;
+        pool.expiry_hours = 12;
     }
     // transaction DAG: chains, diamonds, conflicting spends, shared deps
     let ntx = r.urange(6, 40);
@@ -426,6 +442,43 @@ pub fn generate(seed: u64, prop: &str) -> PoolScenario {
         sk.push(POp::Quiesce);
         sk.push(POp::Mine);
         sk.extend(ops.drain(..).take(40));
+        ops = sk;
+    }
+    if reopen {
+        // blocks 1..f are mined quickly by another miner, block f-1 proposes transaction 0 (which waits in
+        // the pool) and nobody commits it; the chain A goes on SLOWLY (its next epoch gets half the
+        // difficulty) until the proposal has left the window: the transaction is pending again. A branch
+        // B leaves A at f, runs fast (its next epoch gets twice the difficulty) and outweighs A while
+        // still shorter: the window of B's tip reaches back below the fork point to block f-1, so the
+        // transaction is proposed again.
+        let l = cfg.genesis_epoch_len;
+        let f = l - 2;
+        let slow = cfg.epoch_duration_target * 1000 * 2 + 777;
+        let mut rp = Rng::new(seed ^ 0xC12_0BE6);
+        // transaction 0 must be plainly valid: one genesis input, decent fee
+        txs[0].inputs = vec![InRef::G(0)];
+        txs[0].dep = None;
+        txs[0].hdep = None;
+        txs[0].fee = 2_000 + rp.range(0, 2_000);
+        let mut sk = vec![POp::Submit { t: 0, remote: false }, POp::Quiesce];
+        sk.push(POp::Quiet { n: f - 2, ts_delta: 5, propose: None, seed: rp.below(1 << 40) });
+        sk.push(POp::Quiet { n: 2, ts_delta: 7, propose: Some(0), seed: rp.below(1 << 40) });
+        sk.push(POp::Quiesce);
+        // A: one slow block ends the genesis epoch, then into epoch 1 until the proposal has expired
+        sk.push(POp::Quiet { n: 1, ts_delta: slow, propose: None, seed: rp.below(1 << 40) });
+        // (the fork point must still be inside A's pruned window while block f-1 has just left it)
+        let n_epoch1 = cfg.w_far - 3 + rp.range(0, 2);
+        sk.push(POp::Quiet { n: n_epoch1, ts_delta: 3_000, propose: None, seed: rp.below(1 << 40) });
+        sk.push(POp::Quiesce);
+        sk.push(POp::Fork { back: 1 + n_epoch1, len: 0, seed: rp.below(1 << 40) });
+        if rp.chance(1, 3) {
+            sk.push(POp::Take);
+            sk.push(POp::Poll { k: rp.idx(8) });
+        }
+        sk.push(POp::Quiesce);
+        sk.push(POp::Mine);
+        sk.push(POp::Quiesce);
+        sk.extend(ops.drain(..).take(25));
         ops = sk;
     }
     if c13_full {
@@ -1254,6 +1307,10 @@ impl PoolExec {
                 self.il.write_u64(12);
                 self.sibling(*seed);
             }
+            POp::Quiet { n, ts_delta, propose, seed } => {
+                self.il.write_u64(13);
+                self.quiet(*n, *ts_delta, *propose, *seed);
+            }
             POp::Expire => {
                 self.il.write_u64(10);
                 // the service runs the expiry pass only inside a reorg notification, together with
@@ -1408,6 +1465,51 @@ impl PoolExec {
         }
         self.res.faults.inc("foreign_miner_blocks");
         self.ev(&format!("foreign t={t} -> tip #{}", self.tip_idx));
+    }
+
+    /// blocks of another miner that commit nothing (see POp::Quiet)
+    fn quiet(&mut self, n: u64, ts_delta: u64, propose: Option<usize>, seed: u64) {
+        let mut plant: Vec<String> = Vec::new();
+        if let Some(t) = propose {
+            let t = t % self.sc.txs.len().max(1);
+            if let Some(tx) = self.tx(t) {
+                let name = format!("pt{t}");
+                if !self.w.planted.contains_key(&name) {
+                    let idx = match self.w.txs.iter().position(|m| m.tx.hash() == tx.hash()) {
+                        Some(i) => i,
+                        None => {
+                            // not yet known to the model: register it with the fee the scenario gave it
+                            let fee = self.sc.txs[t].fee;
+                            self.w.add_tx(tx.clone(), fee)
+                        }
+                    };
+                    self.w.planted.insert(name.clone(), idx);
+                }
+                plant.push(format!("propose:{name}"));
+            }
+        }
+        let mut parent = self.tip_idx;
+        for j in 0..n {
+            let recipe = Recipe {
+                ts_delta,
+                miner: 2,
+                seed: (seed << 8) ^ j ^ ((self.w.blocks.len() as u64) << 44),
+                plant: if j == 0 { plant.clone() } else { Vec::new() },
+                ..Default::default()
+            };
+            let b = self.w.build_child(parent, &recipe);
+            let v = self.w.blocks[b].view.clone();
+            self.now = self.now.max(v.timestamp());
+            self.ft.set_faketime(self.now);
+            if let Some(Err(e)) = self.deliver(&v) {
+                self.res.harness_error = Some(format!("model-built quiet block rejected: {e}"));
+                return;
+            }
+            self.take_queued();
+            parent = b;
+        }
+        self.res.faults.inc("quiet_miner_blocks");
+        self.ev(&format!("quiet n={n} -> tip #{}", self.tip_idx));
     }
 
     /// a sibling of the tip: stored as a side block (equal work, the first seen stays), announced to
